@@ -90,8 +90,8 @@ def w_prof(w, p):
 # ---------------------------------------------------------------------------- the statement of the read path
 STMT_RE = re.compile(
     r"^WITH fp as \( (?P<fp>.*?)\),raw as \( SELECT (?P<distinct> DISTINCT )?arrayMap\(x -> \((?P<proj>.*?)\), tree\) as tree, functions FROM (?P<table>\S+) "
-    r"WHERE \(\(timestamp_ns\) >= \((?P<from>-?\d+)\)\) and \(\(timestamp_ns\) < \((?P<to>-?\d+)\)\) and \(fingerprint IN \(fp\)\) and "
-    r"\((?P<match>.*)\)\),pre_joined as \( SELECT rtree FROM raw array JOIN raw\.tree as rtree \),joined as \( SELECT \((?P<out>.*?)\) as tree "
+    r"WHERE \(\(timestamp_ns\) (?P<lo>>=|>) \((?P<from>-?\d+)\)\) and \(\(timestamp_ns\) (?P<hi><=|<) \((?P<to>-?\d+)\)\) and \(fingerprint IN \(fp\)\) and "
+    r"\((?P<match>.*)\)\),pre_joined as \( SELECT (?P<distinct_pre> DISTINCT )?rtree FROM raw array JOIN raw\.tree as rtree \),joined as \( SELECT \((?P<out>.*?)\) as tree "
     r"FROM pre_joined GROUP BY (?P<group>.*?) ORDER BY (?P<order>.*?) LIMIT (?P<limit>\d+)\) SELECT \(select (?P<agg1>\w+)\(tree\) from joined\) "
     r"as _tree, \(select (?P<agg2>\w+)\(functions\) from raw \) as _functions$", re.S)
 PROJ_ITEM = re.compile(r"x\.(\d+)|\(arrayFirst\(y -> y\.(\d+) == '((?:[^'\\]|\\.)*)', x\.(\d+)\) as af\)\.(\d+)|af\.(\d+)")
@@ -129,10 +129,13 @@ def parse_stmt(text):
     for g in m.group("out").split(", "):
         a = re.fullmatch(r"rtree\.(\d+)", g)
         b = re.fullmatch(r"sum\(rtree\.(\d+)\)", g)
+        f = re.fullmatch(r"(max|min|any)\(rtree\.(\d+)\)", g)
         if a:
             out.append("GKey %s" % a.group(1))
         elif b:
             out.append("GSum %s" % b.group(1))
+        elif f:
+            out.append("GAgg %s %s" % ({"max": "AMax", "min": "AMin", "any": "AAny"}[f.group(1)], f.group(2)))
         else:
             return None
     def fields(txt):
@@ -149,7 +152,8 @@ def parse_stmt(text):
     return {"fp": m.group("fp"), "table": m.group("table"), "match": m.group("match"), "types": types, "proj": proj,
             "from": int(m.group("from")), "to": int(m.group("to")), "out": out, "group": group, "order": order,
             "limit": int(m.group("limit")), "agg1": AGGS[m.group("agg1")], "agg2": AGGS[m.group("agg2")],
-            "distinct": bool(m.group("distinct"))}
+            "distinct": bool(m.group("distinct")), "distinct_pre": bool(m.group("distinct_pre")),
+            "from_strict": m.group("lo") == ">", "to_incl": m.group("hi") == "<="}
 
 
 def stmt_key(st):
@@ -164,11 +168,12 @@ def cstr(x):
 def stmt_coq(st):
     z = lambda v: "(%d)%%Z" % v
     return ("{| ms_fp := %s; ms_table := %s; ms_matchers := %s; ms_types := [%s]; ms_proj := [%s]; ms_from := %s; ms_to := %s; "
-            "ms_out := [%s]; ms_group := [%s]; ms_order := [%s]; ms_limit := %s; ms_tree_agg := %s; ms_fn_agg := %s; ms_distinct := %s |}"
-            % (cstr(st["fp"]), cstr(st["table"]), cstr(st["match"]),
+            "ms_out := [%s]; ms_group := [%s]; ms_order := [%s]; ms_limit := %s; ms_tree_agg := %s; ms_fn_agg := %s; ms_distinct := %s; ms_distinct_pre := %s; "
+            "ms_from_strict := %s; ms_to_incl := %s |}"
+            % ((cstr(st["fp"]), cstr(st["table"]), cstr(st["match"]),
                "; ".join(cstr(t) for t in st["types"]), "; ".join(st["proj"]), z(st["from"]), z(st["to"]),
                "; ".join(st["out"]), "; ".join(g + "%N" for g in st["group"]), "; ".join(g + "%N" for g in st["order"]),
-               z(st["limit"]), st["agg1"], st["agg2"], "true" if st.get("distinct") else "false"))
+               z(st["limit"]), st["agg1"], st["agg2"]) + tuple("true" if st.get(k) else "false" for k in ("distinct", "distinct_pre", "from_strict", "to_incl"))))
 
 
 def attach_statements(cases):
@@ -335,7 +340,7 @@ def parse_eval(ck, name, out, templates, judge_text):
     dm = re.search(r"\bDM = (?:\[(.*?)\]|nil)\s*: list Z", flat)
     sq = re.search(r"\bSQ = (?:\[(.*?)\]|nil)\s*: list Z", flat)
     sj = re.search(r"\bSJ = (-?\d+)\s*: Z", flat)
-    st = re.search(r"\bST = (?:\[(.*?)\]|nil)\s*: list \(Z \* \(Z \* Z\)\)", flat)
+    st = re.search(r"\bST = (?:\[(.*?)\]|nil)\s*: list \(Z \* \(Z \* Z \* \(Z \* Z \* \(Z \* Z\)\)\)\)", flat)
     if not d or not m or not v or not h or not hf or not dm or not sq or not sj or not st:
         return None, None, None, out
     ints = lambda s: [int(x) for x in re.findall(r"-?\d+", s or "")]
@@ -352,7 +357,7 @@ def parse_eval(ck, name, out, templates, judge_text):
     ck.extra["cases_with_statements_judged"] = ck.extra.get("cases_with_statements_judged", 0) + int(sj.group(1))
     tt = ints(st.group(1))
     ck.extra.setdefault("rejected_statement_totals", {}).update(
-        {str(i): (t if has else None) for i, has, t in zip(tt[0::3], tt[1::3], tt[2::3])})
+        {str(tt[k]): [(tt[k + j + 1] if tt[k + j] else None) for j in (1, 3, 5)] for k in range(0, len(tt), 7)})
     if judge_text:
         rk = re.search(r"\bRK = (?:\[(.*?)\]|nil)\s*: list bool", flat)
         ok = re.search(r"\bOK = (?:\[(.*?)\]|nil)\s*: list bool", flat)
@@ -776,21 +781,26 @@ def run_corr(ck):
         str(k): sum(1 for c in rep if max(len(g) for g in stored_view(c)[1]) == k) for k in (2, 3, 4)}
     ck.obligation("the databases the statements are judged on include repeated stored profiles (identical tree and functions columns: "
                   "the same profile scraped twice, A,B,A): %d judged cases" % len(rep), len(rep) >= 2, "the generator / corpus produced none")
-    ck.extra["statement_templates_with_distinct"] = sum(1 for st, _ in templates if st.get("distinct"))
+    ck.extra["statement_templates_with_distinct"] = sum(1 for st, _ in templates if st.get("distinct") or st.get("distinct_pre"))
     if sqbad:
         first = min((byid[i] for i in sqbad), key=case_size)
         first["_stmt_total"] = ck.extra.get("rejected_statement_totals", {}).get(str(first["id"]))
         worst = shrink(ck, first)
         per, same = stored_view(worst)
+        split = (worst.get("diff") or {}).get("split", 0)
+        got = worst.get("_stmt_total") or [None, None, None]
         ck.violation({"property": "C16", "kind": "the statement of PlanMergeTraces does not compute the projection/grouping the flame graph is built from",
                       "case": slim(worst), "statement": worst["svc"]["sql"],
                       "expected_total": wrap64(sum(per)), "stored_root_totals_per_profile": per,
-                      "total_the_statement_evaluates_to": worst.get("_stmt_total"),
+                      "total_the_statement_evaluates_to": got[0],
+                      "diff_split": split, "expected_left_right_totals": [wrap64(sum(per[:split])), wrap64(sum(per[split:]))],
+                      "left_right_totals_the_statements_evaluate_to": got[1:],
                       "profiles_with_identical_stored_rows": same,
                       "explanation": "eval_merge_stmt (coq/model/ProfSql.v) of the parsed statement on the stored rows of this case differs from "
                       "group-by-(parent,function,node) sums of the rows projected on the selected sample type: the flame graph built from the "
                       "statement's answer has total_the_statement_evaluates_to (null: the statement has no value in the model) where the stored "
-                      "profiles (profs, all inside the window of MergeStackTraces) put expected_total; a raw select that is a SELECT DISTINCT reads "
+                      "profiles (profs, all inside the window of MergeStackTraces) put expected_total; likewise for the two statements of RenderDiff (left = profiles "
+                      "[0, diff_split), right = the rest; profile i is stored at second i); a raw select that is a SELECT DISTINCT reads "
                       "profiles with identical stored rows once (theorem distinct_statement_refuted)",
                       "replay": "write the case as one JSON line and run: proftree --cases <file>"})
     dmm = sorted(set(ck.extra.get("diff_mismatch_cases", [])))
